@@ -28,7 +28,7 @@ theorem c19_remove_gate {c c' : Circuit} {l : Label} (h : c.removeGate l = .ok c
     l ∈ c.labels ∧ c.usersOf l = [] ∧
     c'.gates = c.gates.filter (fun x => !(x.label == l)) ∧
     c'.outputs = c.outputs.filter (fun o => !(o == l)) ∧
-    c'.blocks = c.blocks.filter (fun b => !(b.gates.contains l || b.inputs.contains l)) ∧
+    c'.blocks = c.blocks.filter (fun b => !(b.gates.contains l || b.inputs.contains l || b.outputs.contains l)) ∧
     (∀ x ∈ c'.inputs, x ∈ c.inputs) := removeGate_spec h
 
 theorem c19_remove_gate_rejects {c : Circuit} {l : Label} :
